@@ -208,6 +208,16 @@ def big_directory(fam, sb, n):
             fam.transitions += 1
 
 
+def count_boundaries(fam, sb):
+    """exactly 256 (and 512) files that must make the exit status non-zero, with a few good ones around them"""
+    m = Machine(sb, fam)
+    for n in (256, 512):
+        for kind, mode in (("shorter-by-1", "check"), ("invalid-utf8", "files"), ("invalid-utf8", "check")):
+            state = tuple((f"g{i:03d}.pas", ALPHABET[kind]) for i in range(n)) + (("zz0.pas", ALPHABET["formatted"]), ("zz1.pas", ALPHABET["formatted"]))
+            step(m, fam, state, "dir", [nm for nm, _ in state], mode, [f"{n}-failing-files"])
+            fam.transitions += 1
+
+
 def explore(tier, seed):
     import concurrent.futures
     depth = 2 if tier == "quick" else 3
@@ -218,6 +228,12 @@ def explore(tier, seed):
     for a in pairs:
         for b in pairs:
             init.append((("x.pas", ALPHABET[a]), ("y.pas", ALPHABET[b])))
+    # file names with characters that mean something to globbing, shells or option parsing: an explicit path is a
+    # path, whatever it contains
+    for odd in ("u[1].pas", "sp ace.pas", "\u00fc.pas", "q?.pas", "a{b,c}.pas", "--x.pas"):
+        for kind in ("shorter-by-many", "formatted", "invalid-utf8"):
+            init.append(((odd, ALPHABET[kind]),))
+    init.append((("u[1].pas", ALPHABET["longer"]), ("u1.pas", ALPHABET["shorter-by-1"])))
     nparts = 16
     parts = [(init[i::nparts], depth, i) for i in range(nparts)]
     enc_init = [(("x.pas", c),) for c in ENC_ALPHABET.values()]
@@ -245,6 +261,8 @@ def explore(tier, seed):
     fam.samples = fam.samples[:3]
     with cli.Sandbox("c16-big") as sb:
         big_directory(fam, sb, 48 if tier == "quick" else 200)
+    with cli.Sandbox("c16-count") as sb:
+        count_boundaries(fam, sb)
     return [fam]
 
 
